@@ -184,6 +184,7 @@ func vpLockEvents(reset bool) int                       { return 0 }
 func vpOneCriticalSection() bool        { return true }
 func vpSelectFirst(on bool)             {}
 func vpBlockedIsViolation(label string) {}
+func vpUnsupported(msg string)          { panic("environment: " + msg) }
 func vpPreempt(k int)                   {}
 func vpYield()                          { runtime.Gosched(); time.Sleep(2 * time.Millisecond) }
 func vpIsOpaqueStr(s string) bool       { return false }
